@@ -739,7 +739,104 @@ def execute_s4(case: dict) -> dict:
     return out
 
 
+# ---------------------------------------------------------------------------------------
+# S5: one wrapper, two event loops one after the other
+# ---------------------------------------------------------------------------------------
+F27_LOOPS = "lru_cache:size-counter-shared-by-the-caches-of-different-event-loops"
+
+
+def s5_family():  # noqa: ANN201
+    for cfg in ("stock", "eager"):
+        for ms in (None, 1, 2, 3):
+            for warm in (0, 1, 2, 3):  # distinct keys cached by the first loop
+                for conc in (1, 3):  # equal concurrent callers in the second loop
+                    for ac in (False, True):
+                        yield {"stratum": "S5", "cfg": cfg, "maxsize": ms, "warm": warm, "conc": conc,
+                               "always_checkpoint": ac}  # fmt: skip
+
+
+def execute_s5(case: dict) -> dict:
+    """the decorated function is module-level state: it is used in one event loop, that loop
+    ends, and it is used again in a second one (two anyio.run() calls in a program, a test
+    suite).  The cache is per loop; in the second loop everything starts cold, and from
+    there on the usual clauses hold: one execution at a time per key, a retained key is not
+    recomputed, no internal error"""
+    from anyio.functools import lru_cache
+    from anyio.lowlevel import checkpoint
+
+    import anyio
+
+    viol: list = []
+    out: dict = {"viol": viol, "windows": {}, "nontrivial": True}
+    ms = case["maxsize"]
+    state = {"running": {}, "overlap": False, "execs": []}
+
+    @lru_cache(maxsize=ms, always_checkpoint=case["always_checkpoint"])
+    async def fn(k):  # noqa: ANN001, ANN202
+        state["running"][k] = state["running"].get(k, 0) + 1
+        if state["running"][k] > 1:
+            state["overlap"] = True
+
+        state["execs"].append(k)
+        try:
+            await checkpoint()
+            await checkpoint()
+            return (k, len(state["execs"]))
+        finally:
+            state["running"][k] -= 1
+
+    async def first() -> None:
+        for k in range(case["warm"]):
+            await fn(("warm", k))
+
+    async def second() -> None:
+        state["execs"].clear()
+        errors: list = []
+
+        async def call(k) -> None:  # noqa: ANN001
+            try:
+                tok = await fn(k)
+                if tok[0] != k:
+                    viol.append(("wrong-value-for-key", {"key": k, "tok": tok}, None))
+            except BaseException as e:  # noqa: BLE001
+                errors.append(repr(e))
+
+        async with anyio.create_task_group() as tg:
+            for _ in range(case["conc"]):
+                tg.start_soon(call, "a")
+
+        await call("b")
+        await call("a")  # retained if maxsize allows two results
+        mech = F27_LOOPS if (ms is not None and case["warm"] > 0) else None
+        if errors:
+            viol.append(("internal-error", {"errors": errors[:3]}, mech))
+
+        if state["overlap"]:
+            viol.append(("overlapping-executions-of-one-key", {"execs": list(state["execs"])}, mech))
+
+        want = ["a", "b"] if ms is None or ms >= 2 else ["a", "b", "a"]
+        if not errors and not state["overlap"] and state["execs"] != want:
+            viol.append(("retained-key-recomputed-in-a-second-event-loop" if len(state["execs"]) > len(want)
+                         else "stale-or-missing-execution", {"execs": list(state["execs"]), "expected": want},
+                         mech))  # fmt: skip
+
+    out["windows"]["wrapper_used_in_a_second_event_loop"] = 1
+    try:
+        run(first, config=case["cfg"])
+        run(second, config=case["cfg"])
+    except (Deadlock, BusyLoop) as e:
+        viol.append(("deadlock-or-busy-loop", {"exc": type(e).__name__}, None))
+
+    out["sig"] = sig_of(["S5", case, list(state["execs"])])
+    out["log_tail"] = [{"execs_in_second_loop": list(state["execs"])}]
+    out["stratum"] = "S5"
+    return out
+
+
 def execute(case: dict) -> dict:
+    if case["stratum"] == "S5":
+        return execute_s5(case)
+
     if case["stratum"] == "S1":
         r = execute_s1(case)
         r["stratum"] = "S1"
@@ -805,6 +902,7 @@ def all_cases(tier: str, seed: int):  # noqa: ANN201
     yield from f3_witness_cases()
     yield from f19_witness_cases()
     yield from s4_family()
+    yield from s5_family()
     yield from ttl_family()
     rng4 = random.Random(seed * 4001 + 4)
     for _ in range(8000 if tier == "thorough" else 800):
